@@ -1,19 +1,23 @@
 #!/usr/bin/env bash
 # Self-test of ats-replay.
 #
-#   ./selftest.sh            build offline against /repo's working tree, run every history in
-#                            histories/ (all must exit 0: their asserts describe the correct
-#                            behaviour), then run the randomized search (must report NO-HIT).
+#   ./selftest.sh            build offline against the contract tree named in Cargo.toml, run the
+#                            unit cross-checks (cargo test), run every history in histories/
+#                            (D*, ok_* must exit 0: their asserts describe the correct behaviour;
+#                            K* are recorded known findings and must still reproduce: exit 3),
+#                            then run the randomized search over the original and the new
+#                            profiles (must report NO-HIT).
 #   ./selftest.sh --pinned   additionally extract the pinned defective tree (PINNED_REV, default
 #                            3673442) read-only from /repo's git objects into target/pinned/,
 #                            build a copy of this crate against it and check the opposite:
 #                            every D*.json history exits 3, ok_basic exits 0, search HITs.
 #
-# Nothing outside /verif/replay is written (the pinned copy lives under target/).
+# Nothing outside this directory is written (the pinned copy lives under target/).
 set -u
 cd "$(dirname "$0")"
 export CARGO_NET_OFFLINE=true
 PINNED_REV="${PINNED_REV:-3673442}"
+REPO=$(sed -n 's/^ats-smart-contract = { path = "\(.*\)" }.*/\1/p' Cargo.toml)
 BIN=target/debug/ats-replay
 fail=0
 note() { printf '%s\n' "$*"; }
@@ -21,7 +25,7 @@ check() { # check <label> <expected-exit> <actual-exit>
   if [ "$3" -eq "$2" ]; then note "PASS  $1 (exit $3)"; else note "FAIL  $1 (exit $3, expected $2)"; fail=1; fi
 }
 
-note "== build (offline) against /repo working tree ($(git -C /repo log --oneline -1 2>/dev/null || echo '?'))"
+note "== build (offline) against $REPO working tree ($(git -C "$REPO" log --oneline -1 2>/dev/null || echo '?'))"
 start=$(date +%s)
 mkdir -p target/selftest
 if ! cargo build --offline 2> target/selftest/build.log; then
@@ -29,13 +33,19 @@ if ! cargo build --offline 2> target/selftest/build.log; then
 fi
 note "PASS  build ($(( $(date +%s) - start )) s)"
 
-note "== histories on the current /repo (expected exit 0)"
+note "== unit cross-checks of the hand-written parsers against the semver / uuid crates and MockApi"
+if cargo test --offline > target/selftest/test.log 2>&1; then note "PASS  cargo test"; else tail -20 target/selftest/test.log; note "FAIL  cargo test"; fail=1; fi
+
+note "== histories on the current tree (expected exit 0; K* = known finding still reproduces, exit 3)"
 for h in histories/*.json; do
-  $BIN run "$h" --quiet > /dev/null
-  check "run $h" 0 $?
+  $BIN run "$h" --quiet > /dev/null; rc=$?
+  case "$(basename "$h")" in
+    K*) check "run $h (known finding)" 3 $rc ;;
+    *)  check "run $h" 0 $rc ;;
+  esac
 done
 
-note "== randomized search on the current /repo (expected NO-HIT)"
+note "== randomized search on the current tree (expected NO-HIT)"
 out=$($BIN search --oracle solvency --seed 1 --iters 3000 --out target/selftest/hit-solvency.json); rc=$?
 note "      $out"
 check "search --oracle solvency --seed 1 --iters 3000" 0 $rc
@@ -45,18 +55,30 @@ for p in default convertible fees nonlot markers; do
   check "search --oracle all --seed 1 --iters 1000 --profile $p" 0 $rc
 done
 
+note "== step-level oracles: new profiles, all registered oracles (expected NO-HIT)"
+for p in auth config admission match migration instantiate; do
+  out=$($BIN search --oracle all --seed 1 --iters 600 --profile $p --out target/selftest/hit-all-$p.json); rc=$?
+  note "      $out"
+  check "search --oracle all --seed 1 --iters 600 --profile $p" 0 $rc
+done
+for o in authorization config_change migration admission match_eligibility settlement queries attributes instantiate_coherence; do
+  out=$($BIN search --oracle $o --seed 2 --iters 400 --out target/selftest/hit-$o.json); rc=$?
+  note "      $out"
+  check "search --oracle $o --seed 2 --iters 400 (profile auto)" 0 $rc
+done
+
 if [ "${1:-}" = "--pinned" ]; then
   note "== pinned defective tree $PINNED_REV (expected: D* exit 3, ok_basic exit 0, search HIT)"
   P="$PWD/target/pinned"
   rm -rf "$P/repo" "$P/replay"
   mkdir -p "$P/repo" "$P/replay/.cargo"
-  if ! git -C /repo archive "$PINNED_REV" | tar -x -C "$P/repo"; then
-    note "FAIL  cannot extract $PINNED_REV from /repo"; exit 1
+  if ! git -C "$REPO" archive "$PINNED_REV" | tar -x -C "$P/repo"; then
+    note "FAIL  cannot extract $PINNED_REV from $REPO"; exit 1
   fi
   cp Cargo.lock "$P/replay/Cargo.lock"
   cp .cargo/config.toml "$P/replay/.cargo/config.toml"
   cp -r src "$P/replay/src"
-  sed "s#path = \"/repo\"#path = \"$P/repo\"#" Cargo.toml > "$P/replay/Cargo.toml"
+  sed "s#path = \"$REPO\"#path = \"$P/repo\"#" Cargo.toml > "$P/replay/Cargo.toml"
   if ! (cd "$P/replay" && CARGO_TARGET_DIR="$P/target" cargo build --offline 2> "$P/build.log"); then
     cat "$P/build.log"; note "FAIL  pinned build"; exit 1
   fi
@@ -67,6 +89,8 @@ if [ "${1:-}" = "--pinned" ]; then
   done
   "$PBIN" run histories/ok_basic.json --quiet > /dev/null
   check "pinned run histories/ok_basic.json" 0 $?
+  "$PBIN" run histories/K1_prorata_precision.json --quiet > /dev/null
+  check "pinned run histories/K1_prorata_precision.json (known finding)" 3 $?
   out=$("$PBIN" search --oracle solvency --seed 1 --iters 3000 --out target/selftest/pinned-hit-solvency.json); rc=$?
   note "      $out"
   check "pinned search --oracle solvency --seed 1 --iters 3000 (HIT)" 1 $rc
@@ -76,7 +100,7 @@ if [ "${1:-}" = "--pinned" ]; then
     $BIN run target/selftest/pinned-hit-solvency.json --quiet > /dev/null
     check "current-/repo run of the found witness (defect gone)" 3 $?
   fi
-  for spec in "exit_liveness nonlot" "mechanism fees" "mechanism markers" "solvency fees" "approver_tracks_size convertible"; do
+  for spec in "exit_liveness nonlot" "mechanism fees" "mechanism markers" "solvency fees" "approver_tracks_size convertible" "config_change config" "settlement fees"; do
     set -- $spec
     out=$("$PBIN" search --oracle $1 --seed 1 --iters 3000 --profile $2 --out target/selftest/pinned-hit-$1-$2.json); rc=$?
     note "      $out"
